@@ -5,6 +5,19 @@
   Part 1 (any linearly ordered field `K`, hence ℚ and ℝ): the four `transform_matrix_for_*` builders,
   `apply_transform`, `compose_transforms`.
   Part 2 (ℝ, with `Real.sqrt`, `Real.sin`, `Real.cos`, `Real.arccos`): `euler`, `rotation_from_up_and_look`.
+
+  KNOWN FINDING (compose/order/non-affine, see known_findings.json and lean/witnesses/C11.json).  The property states
+  the composition-order clause for *all* 4×4 matrices:
+      `compose_order_full`            the unrestricted statement, kept as a `def … : Prop` — it is FALSE for the code;
+      `compose_order`, `compose_order_list`
+                                      its `_partial` form: proved under the hypothesis that the first matrix (every
+                                      matrix of the list) is affine, i.e. has last row (0,0,0,1);
+      `compose_order_affine_needed`, `compose_order_defect_witness`
+                                      the defect witness: A = diag(1,1,1,2), B = translation (1,0,0), p = 0 gives
+                                      (2,0,0) ≠ (1,0,0), hence `¬ compose_order_full ℚ`.
+  The cause is that `apply_transform` drops the fourth coordinate without dividing by it; the code is not repaired.
+  All theorems are about exact arithmetic (ℝ or an ordered field); see the note at `up_look_raises_iff` for what that
+  means for nearly collinear floating-point inputs.
 -/
 import PW.Model.Affine
 import PW.Model.Rotation
@@ -178,14 +191,24 @@ theorem compose_matrix (ts : List (M4 K)) (t a b : M4 K) :
     composeTransforms [a] = a :=
   ⟨compose_append_singleton ts t, rfl, rfl⟩
 
-/-- left to right: applying `compose(A, B)` to `p` is applying `B` to the result of applying `A` to `p`
+/-- the composition-order clause exactly as the property states it, for ALL 4×4 matrices: applying
+    `compose(A, B)` to `p` equals applying `B` to the result of applying `A` to `p`.  This full statement is FALSE for
+    the code (`compose_order_defect_witness`); what holds is the affine form `compose_order` / `compose_order_list`. -/
+def compose_order_full (K : Type) [Field K] [LinearOrder K] [IsStrictOrderedRing K] : Prop :=
+  ∀ (a b : M4 K) (p : V3 K) (asVector : Bool),
+    applyTransform (composeTransforms [a, b]) p asVector =
+      applyTransform b (applyTransform a p asVector) asVector
+
+/-- (`_partial` form of `compose_order_full`: affine first matrix.)
+    left to right: applying `compose(A, B)` to `p` is applying `B` to the result of applying `A` to `p`
     (for an affine `A`; `apply_transform` drops the fourth coordinate without dividing). -/
 theorem compose_order (a b : M4 K) (ha : IsAffine a) (p : V3 K) (asVector : Bool) :
     applyTransform (composeTransforms [a, b]) p asVector =
       applyTransform b (applyTransform a p asVector) asVector :=
   apply_mul b a ha p asVector
 
-/-- any finite list: the composite applies the listed transforms one after the other, first to last. -/
+/-- (`_partial` form of `compose_order_full` for lists: every matrix affine.)
+    any finite list: the composite applies the listed transforms one after the other, first to last. -/
 theorem compose_order_list (ts : List (M4 K)) (h : ∀ t ∈ ts, IsAffine t) (p : V3 K) (asVector : Bool) :
     applyTransform (composeTransforms ts) p asVector =
       ts.foldl (fun q t => applyTransform t q asVector) p ∧ IsAffine (composeTransforms ts) :=
@@ -207,6 +230,14 @@ theorem compose_order_affine_needed :
     revert this
     mat_simp
     norm_num
+
+/-- defect witness: the unrestricted composition-order clause of the property is false (over ℚ, hence for the
+    code on exactly representable inputs: `apply_transform(compose_transforms(A, B))(0) = (2,0,0)` but
+    `apply_transform(B)(apply_transform(A)(0)) = (1,0,0)`). -/
+theorem compose_order_defect_witness : ¬ compose_order_full ℚ := by
+  intro h
+  obtain ⟨a, b, p, -, hne⟩ := compose_order_affine_needed
+  exact hne (h a b p false)
 
 /-! ### Part 0 — what the translator read from the source is what the model uses
 
@@ -386,7 +417,15 @@ theorem euler_units (angles : List ℝ) (order : List EulerAxis) :
 /-! ### rotation_from_up_and_look -/
 
 /-- the `raise` decision logic: rejected exactly for a zero `up`, a zero `look`, or collinear `up`, `look`;
-    the exception is a `ValueError`. -/
+    the exception is a `ValueError`.
+
+    Limitation (exact arithmetic): this is a statement over ℝ.  In floating point the third guard tests
+    `‖look − (look·y) y‖ == 0` on rounded values, so for collinear inputs whose unit vector is not exactly
+    representable (e.g. `up = (1,1,1)`, `look = (3,3,3)`) the residual is a tiny non-zero vector, no `ValueError` is
+    raised and a singular (det 0) matrix is returned.  Such inputs are outside the property's quantifier (directions
+    differing by more than 1e-6 rad); the generators keep that margin (float stream: angle ≥ 2e-6 rad; exactly
+    collinear pairs only along a coordinate axis, where the float arithmetic is exact), so the correspondence check
+    compares the collinear `raise` only where model and code provably agree. -/
 theorem up_look_raises_iff (up look : V3 ℝ) :
     rotationFromUpAndLook up look = .error .ValueError ↔
       (up = V3.zero ∨ look = V3.zero ∨ up.cross look = V3.zero) := by
